@@ -82,6 +82,21 @@ Clone(nm, to) == LET o == objs[nm] w == Window(o) k == Len(Window(o)) IN
     /\ owner' = [id \in (DOMAIN owner) \cup {nextid + q - 1 : q \in 1..k} |-> IF id \in DOMAIN owner THEN owner[id] ELSE to]
     /\ nextid' = nextid + k /\ clones' = clones + 1 /\ Log("clone", nm) /\ UNCHANGED handed
 
+\* Clone::clone_from(&mut dst, &src) on two live containers.  Neither type overrides it, so it is `*dst = src.clone()`:
+\* the clone is built first (fresh values, in order), then the old contents of dst are dropped.  (An override that
+\* reuses dst's storage element by element would create and drop the same numbers of values.)
+CloneFrom(nm, src) == LET d == objs[nm] o == objs[src] w == Window(o) k == Len(Window(o)) IN
+    /\ o.kind \in {"consumer", "builder"} /\ d.kind = o.kind /\ clones < MaxClones
+    /\ err' = (err \/ ~AllOwned(src, w) \/ ~AllOwned(nm, Window(d)))
+    /\ objs' = [objs EXCEPT ![nm] =
+                  IF o.kind = "consumer"
+                  THEN [kind |-> "consumer", arr |-> [q \in 1..N |-> IF q <= k THEN nextid + q - 1 ELSE 0], tf |-> 0, tb |-> N - k, inited |-> 0]
+                  ELSE [kind |-> "builder", arr |-> [q \in 1..N |-> IF q <= k THEN nextid + q - 1 ELSE 0], tf |-> 0, tb |-> 0, inited |-> k]]
+    /\ owner' = [id \in (DOMAIN owner) \cup {nextid + q - 1 : q \in 1..k} |->
+                   IF id \notin DOMAIN owner THEN nm
+                   ELSE IF \E q \in 1..Len(Window(d)) : Window(d)[q] = id THEN "dropped" ELSE owner[id]]
+    /\ nextid' = nextid + k /\ clones' = clones + 1 /\ Log("clone_from", nm) /\ UNCHANGED handed
+
 \* Clone where T::clone panics on the (j+1)-th element: the half-built clone is dropped while unwinding.
 \* Consumer: `this.array[i] = ..; this.taken_back -= 1` keeps the window = the j clones written so far;
 \* Builder: `this.push(clone)` likewise.  So exactly the j fresh values are dropped, the source is untouched.
@@ -125,7 +140,7 @@ BBuild(nm) == LET o == objs[nm] IN
 
 Next == \E nm \in Names :
           \/ CNext(nm) \/ CNextBack(nm) \/ CNone(nm) \/ DropObj(nm) \/ CAssertEmpty(nm) \/ BPush(nm) \/ BPushFull(nm) \/ BBuild(nm)
-          \/ \E to \in Names \ {nm} : Clone(nm, to)
+          \/ \E to \in Names \ {nm} : Clone(nm, to) \/ CloneFrom(nm, to)
           \/ \E j \in 0..(N - 1) : ClonePanic(nm, j)
 Spec == Init /\ [][Next]_vars
 
